@@ -393,14 +393,16 @@ def write_evidence(prop, tier, seed, spec, results, kani_results, obligations, d
         for fr in meta["verified"]:
             functions.append(f"{fr['file']}::{fr['qual']}")
         for st in meta["stubs"]:
-            link = ""
             if st.get("proved_in"):
                 b = BRIDGES.get((r["unit"], st["qual"], st["proved_in"]))
                 if b and b["status"].startswith("bridged"):
-                    link = f", its contract follows from the one unit {st['proved_in']} verifies ({b['status']}; bridge checked by tools/bridge_links.py, key {b.get('key')})"
+                    trusted.append(f"contract used here follows from the one unit {st['proved_in']} verifies for this function ({b['status']}; bridge verified by tools/bridge_links.py, key {b.get('key')}): {st['file']}::{st['qual']}")
+                elif b and b["status"].startswith("no contract"):
+                    trusted.append(f"called without any assumption about its result (the function is under contract in unit {st['proved_in']}): {st['file']}::{st['qual']}")
                 else:
-                    link = f", supported by unit {st['proved_in']} in that unit's own vocabulary, not derived from it" + (f" ({b['status'][:90]})" if b else "")
-            trusted.append(f"assumed contract (class C stub{link}): {st['file']}::{st['qual']}")
+                    trusted.append(f"assumed contract (class C stub; unit {st['proved_in']} verifies the function under a contract of its own, from which this one is not derived" + (f": {b['status'][:160]}" if b else "") + f"): {st['file']}::{st['qual']}")
+            else:
+                trusted.append(f"assumed contract (class C stub): {st['file']}::{st['qual']}")
         for e in meta["edits"]:
             holes.append(e)
         per_run.append(dict(unit=r["unit"], feature_set=r["fs"], status=r["status"], verus_verified=r.get("verified_count"),
